@@ -13,7 +13,7 @@ Decoders: ChunkedBodyDecoder and LengthPrefixedBodyDecoder directly; SmartServer
 / Two.accept_bytes and build_server_protocol_three (ProtocolThreeDecoder + ConventionalRequestHandler
 + SmartServerRequestHandler with recording verbs); ProtocolThreeDecoder + ConventionalResponseHandler
 fed by accept_bytes; SmartClientRequestProtocolOne / Two and ConventionalResponseHandler pulling
-through a SmartClientStreamMedium whose reads return any number of bytes; the real
+through the real SmartSimplePipesClientMedium whose pipe returns any number of bytes; the real
 SmartServerSocketStreamMedium.serve() over a socket whose recv returns any number of bytes of two
 or three pipelined requests (recording verbs and the real hello/get/put/has/readv verbs).
 Oracle: the decoded arguments / body / offsets / chunks / error equal what was encoded, whatever the
@@ -50,13 +50,15 @@ def items(thorough):
         if spec[1] == 3 and sl == "A" and spec[4] == "body" and not thorough and spec[3] not in ((b"ok",), (b"ok", b"a", b"\x01")):
             continue            # v3 frames arguments and body independently: the product is left to the thorough tier
         out.append(("pull", spec, b"", "any"))
-        if spec[1] == 3 and (sl == "B" or thorough):
+        if spec[1] == 3 and (sl == "B" or (thorough and len(spec[3]) <= 1) or (sl == "H" and spec[4] in ("body", "stream_fail"))):
             out.append(("push", spec, W.next_bytes(spec), "any"))
     # pipelined requests through the real socket medium
     for sl, spec in W.request_specs(thorough):
         if sl == "E" and spec[1] < 3:
             continue
         follow = W.hello(spec[1])
+        if spec[1] == 3 and thorough and sl == "A" and len(spec[3]) == 2 and spec[3][0] != spec[3][1]:
+            continue            # thorough: of the two-argument tuples only the diagonal goes through the socket medium
         if spec[1] == 3 and not thorough:
             # quick tier: v3 requests with <= 1 argument, <= 1 chunk (plus one two-chunk stream), 3 offset
             # lists, followed by a v1 request (shorter); the thorough tier runs the whole grammar
@@ -210,6 +212,7 @@ def run(ctx):
         "messages_explored": acc.counters.get("items", 0),
         "message_bytes": acc.counters.get("bytes", 0),
         "per_harness": {k[6:]: v for k, v in sorted(acc.counters.items()) if k.startswith("items:")},
+        "executions_per_harness": {k[6:]: v for k, v in sorted(acc.counters.items()) if k.startswith("execs:")},
         "brute_force_messages": bf.counters.get("bf_items", 0),
         "brute_force_executions": bf.n,
         "windowed_brute_force_items": wn.counters.get("window_items", 0),
